@@ -271,6 +271,10 @@ func (d *cnDriver) genSpec() cnTxSpec {
 		sp.Amount = int64(d.rng.Intn(100_000))
 	}
 	sp.Fee = []int64{0, 0, 1, 5, 20}[d.rng.Intn(5)]
+	if mt := d.net.cfg.MinTransact; mt > 0 && (sp.Kind == "transfer" || sp.Kind == "escrow" || sp.Kind == "burn") && d.rng.Intn(3) == 0 && bal > sp.Fee+mt {
+		// the fee is paid and the minimum balance is kept at authentication; the operation itself would leave less than the minimum
+		sp.Amount = bal - sp.Fee - d.rng.Int63n(mt)
+	}
 	if sp.Kind == "transfer" && d.rng.Intn(8) == 0 && bal > sp.Fee {
 		sp.Amount = bal - sp.Fee // the account is drained to exactly zero (and refilled by others later on)
 	}
@@ -924,13 +928,13 @@ func (d *cnDriver) step() error {
 			path = "propose"
 		default:
 			if d.sched != nil {
-				row := d.sched[int(h)%len(d.sched)]
+				row := d.sched[(int(h)+int(n.cfg.Seed%1000)*37)%len(d.sched)] // (offset by the seed: short scenarios together still visit every row)
 				path = row[i%len(row)]
 				if path == "propose" {
 					path = "process" // the proposer is fixed by the validator set, not by the schedule
 				}
 			} else {
-				path = []string{"process", "process", "replay", "other_then_process", "other_then_begin", "restart_process", "restart_replay"}[d.rng.Intn(7)]
+				path = []string{"process", "process", "replay", "other_then_process", "other_then_begin", "prepared_then_process", "prepared_then_begin", "restart_process", "restart_replay"}[d.rng.Intn(9)]
 			}
 		}
 		if !r.cfg.OnDisk && strings.HasPrefix(path, "restart") {
@@ -954,6 +958,19 @@ func (d *cnDriver) step() error {
 		if strings.HasPrefix(path, "restart") {
 			if err := r.restart(); err != nil {
 				return fmt.Errorf("restart: %w", err)
+			}
+		}
+		if strings.HasPrefix(path, "prepared_then") {
+			// the replica as proposer of a failed round of this height: it prepares its own block (other transactions, its own
+			// metadata transaction) and caches the execution under an empty hash; the decided block is the other proposer's
+			ob := *b
+			ob.Txs, ob.Proposer = nil, r.cfg.Identity
+			alt := mempool
+			if len(alt) > 0 {
+				alt = alt[:len(alt)-1]
+			}
+			if _, perr2 := r.prepare(&ob, alt, d.valset); perr2 != nil {
+				d.panics = append(d.panics, fmt.Sprintf("h=%d PrepareProposal(own, failed round): %s", h, perr2))
 			}
 		}
 		if strings.HasPrefix(path, "other_then") {
@@ -988,7 +1005,7 @@ func (d *cnDriver) step() error {
 			}
 		}
 		switch path {
-		case "propose", "process", "other_then_process", "restart_process":
+		case "propose", "process", "other_then_process", "prepared_then_process", "restart_process":
 			acc, perr := r.process(b, d.valset)
 			if perr != nil {
 				d.panics = append(d.panics, fmt.Sprintf("h=%d ProcessProposal: %s", h, perr))
